@@ -12,12 +12,17 @@ from ..report import Ctx
 from ..roles import RoleMissing, Roles
 
 
+def _install_glue(roles: Roles):
+    at_level.glue = roles.is_glue
+
+
 def roles_of(ctx: Ctx) -> Roles:
     r = getattr(ctx, '_roles', None)
     if r is None:
         r = Roles(ctx.ix, ctx.pta)
         ctx._roles = r
         ctx.analysed['roles'] = r.binding_table()
+        _install_glue(r)
     return r
 
 
@@ -448,6 +453,13 @@ def at_level(e: Event, fn: FuncInfo) -> bool:
     if e.func is fn:
         return True
     g = e.func
+    try:
+        from ..report import Ctx as _Ctx       # noqa: F401
+    except Exception:
+        pass
+    glue = getattr(at_level, 'glue', None)
+    if glue is not None and glue(g):
+        return True
     if not g.name.startswith('_') or (g.name.startswith('__') and g.name.endswith('__')):
         return False
     if g.cls is None or fn.cls is None:
